@@ -445,7 +445,23 @@ func writeEvidence(vd, prop, tier string, seed int, spec *PropertySpec, results 
 	var perHarness []interface{}
 	reach := map[string]int{}
 	states, transitions, validated := 0, 0, 0
+	undecided := map[string]int{}
+	nUndecided := 0
 	for _, r := range results {
+		for k, n := range r.Undecided {
+			// scenario numbers are dropped from the key: one line per reason
+			key := k
+			if i := strings.Index(key, ": "); strings.HasPrefix(key, "scenario ") && i > 0 {
+				key = key[i+2:]
+			}
+			if strings.HasPrefix(key, "combination budget") {
+				if j := strings.Index(key, ":"); j > 0 {
+					key = key[:j] + ": not every trace combination examined"
+				}
+			}
+			undecided[r.Harness+": "+key] += n
+			nUndecided += n
+		}
 		for f := range r.Funcs {
 			funcs[f] = true
 		}
@@ -515,6 +531,8 @@ func writeEvidence(vd, prop, tier string, seed int, spec *PropertySpec, results 
 		"per_harness":                 perHarness,
 		"cross_checked":               map[string]interface{}{"queries": cross.Checked, "disagreements": cross.Disagree, "solvers": cross.Solvers, "seconds": cross.Seconds},
 		"inconclusive":                inconclusive,
+		"undecided_outside_bound":     undecided,
+		"undecided_total":             nUndecided,
 		"known_findings_matched":      knownLines,
 		"solver":                      "z3 4.8.12 (/usr/bin/z3 -in, incremental, :global-declarations)",
 		"exhaustive":                  false,
